@@ -139,15 +139,21 @@ impl GaloisTool {
     pub fn apply_ntt(&self, operand: &[u64], galois_elt: usize, result: &mut [u64]) {
         let index = Self::get_index_from_elt(galois_elt);
 
+        #[cfg(feature = "verif")]
+        crate::verif::yield_point("galois.apply_ntt.before_check");
         // Acquire lock
         let need_to_generate = {
             let tables = self.permutation_tables.read().unwrap();
             (*tables)[index].is_empty()
         };
+        #[cfg(feature = "verif")]
+        crate::verif::yield_point("galois.apply_ntt.after_check");
         if need_to_generate {
             let mut tables = self.permutation_tables.write().unwrap();
             (*tables)[index] = self.generate_table_ntt(galois_elt);
         }
+        #[cfg(feature = "verif")]
+        crate::verif::yield_point("galois.apply_ntt.before_use");
 
         // Acquire read
         let reader = self.permutation_tables.read().unwrap();
@@ -176,6 +182,18 @@ impl GaloisTool {
         }
     }
 
+}
+
+#[cfg(feature = "verif")]
+impl GaloisTool {
+    /// Number of permutation tables currently generated (read under the cache's own lock).
+    pub fn verif_tables_filled(&self) -> usize {
+        self.permutation_tables.read().unwrap().iter().filter(|t| !t.is_empty()).count()
+    }
+    /// Copy of the cached table for `galois_elt` (empty if not generated yet).
+    pub fn verif_table(&self, galois_elt: usize) -> Vec<usize> {
+        self.permutation_tables.read().unwrap()[Self::get_index_from_elt(galois_elt)].clone()
+    }
 }
 
 #[cfg(test)]
